@@ -1,4 +1,4 @@
-import SSV.Proofs.HttpProxyTS
+import SSV.Proofs.HttpProxyPairing
 /-
 C16 — Plain-HTTP proxying forwards messages intact minus hop-by-hop and proxy fields (PARTIAL: the filter, the 407
 loop, and the two forwarding goroutines as a transition system are modelled and proved; net/http's parsing and
@@ -204,17 +204,34 @@ theorem closed_stays_closed (first : Req) (rest : List ClientMsg) (hm : first.me
   have hi := inv_reachable hm hr
   exact ⟨hi.doneAbs, done_absorbing hs, hi.qcap⟩
 
-/-! ### fifo_pairing (partial) -/
+/-! ### fifo_pairing -/
 
-/-- FIFO pairing in the sequential reading of serverForwardResponses (`respond`: the responses of the origin consumed
-    against the announced requests): the requests that the delivered *final* responses were paired with are, in
-    order, a prefix of the announced requests, i.e. the k-th final response is paired with the k-th request, whatever
-    interim responses come in between.
-    PARTIAL: the full statement is the same claim for the traces `clientOut` of every reachable state of the
-    transition system (`∀ s, Reachable first rest s → the index stored with each delivery = number of final deliveries
-    before it ∧ s.announced[index] = its request`); the ghost fields for it (`taken`, the index in `clientOut`) are in
-    the model, the invariant proof is missing. Pairing is otherwise covered by the correspondence check and the oracle. -/
-theorem fifo_pairing_partial (qs : List Req) (ps : List Resp) : finalsOf (respond qs ps) <+: qs :=
+/-- FIFO pairing over the traces of the forwarding system. In every reachable state (any interleaving of the request
+    forwarder, the response forwarder and the origin, any responses, solicited or not), for the i-th response
+    written to the client, paired by the code with request `q` taken as the `idx`-th request from the queue:
+    * `idx` is the number of FINAL responses written before it: the k-th final response is paired with request
+      number k, and interim responses stay with the request of the final response that follows them;
+    * request number `idx` of the client's forwardable sequence (the first request, then the following ones up to the
+      first CONNECT / other host / malformed request, each after filtering) is `q`;
+    * if a request was written to the origin at position `idx`, it is `q`. -/
+theorem fifo_pairing (first : Req) (rest : List ClientMsg) (s : St) (hr : Reachable first rest s)
+    (i : Nat) (h : i < s.clientOut.length) :
+    (s.clientOut[i]).2.2 = countFinals (s.clientOut.take i) ∧
+    (filterReq first :: forwardList first.host rest)[(s.clientOut[i]).2.2]? = some (s.clientOut[i]).2.1 ∧
+    ∀ r, s.originIn[(s.clientOut[i]).2.2]? = some r → r = (s.clientOut[i]).2.1 := by
+  have hp := pinv_reachable hr
+  have hf := finv_reachable hr
+  obtain ⟨h1, h2⟩ := hp.paired i h
+  refine ⟨h1, prefix_getElem? hf.pre h2, ?_⟩
+  intro r hr'
+  have := prefix_getElem? hp.origSent.1 hr'
+  rw [h2] at this
+  exact (Option.some.inj this).symm
+
+/-- The same pairing in the sequential reading used by the correspondence check (`respond`: the responses of the
+    origin consumed against the announced requests): the final responses are paired, in order, with a prefix of the
+    requests. -/
+theorem fifo_pairing_sequential (qs : List Req) (ps : List Resp) : finalsOf (respond qs ps) <+: qs :=
   respond_fifo qs ps
 
 /-! ### the hypotheses are satisfiable -/
@@ -231,6 +248,10 @@ example : serverHandle (some ["aGVsbG86d29ybGQ=".toList])
     [.req { exReq with header := [] } true, .req exReq true] 0 = .forward 1 exReq [] := by decide
 example : ∃ s, Reachable exReq [] s ∧ s.originIn = [filterReq exReq] :=
   ⟨_, .step (.step .init (.fAnnounce _ [] (filterReq exReq) rfl rfl (by decide))) (.fWrite _ [] (filterReq exReq) rfl rfl), rfl⟩
+example : ∃ s, Reachable exReq [] s ∧ s.clientOut.length = 1 :=
+  ⟨_, .step (.step (.step (.step (.step .init (.fAnnounce _ [] (filterReq exReq) rfl rfl (by decide)))
+      (.origin _ { status := 200, connClose := false, bodyEOF := false, header := [], announced := [], trailer := [], locHost := none }))
+      (.rPeek _ rfl (by simp))) (.rTake _ (filterReq exReq) [] rfl rfl)) (.rRead _ _ [] (filterReq exReq) rfl rfl rfl), rfl⟩
 example : accepts "example.com".toList (.req { exReq with host := "EXAMPLE.com".toList } true) = none := by decide
 
 end SSV.C16
@@ -249,4 +270,5 @@ end SSV.C16
 #print axioms SSV.C16.violating_request_ends
 #print axioms SSV.C16.close_rules
 #print axioms SSV.C16.closed_stays_closed
-#print axioms SSV.C16.fifo_pairing_partial
+#print axioms SSV.C16.fifo_pairing
+#print axioms SSV.C16.fifo_pairing_sequential
